@@ -274,6 +274,7 @@ func (s *Skiplist) Put(key []byte, v y.ValueStruct) {
 	// Since we allow overwrite, we may not need to create a new node. We might not even need to
 	// increase the height. Let's defer these actions.
 
+	verifSklPoint(0) // verif: schedule points, no-ops without the verif tag (see verif_on.go)
 	listHeight := s.getHeight()
 	var prev [maxHeight + 1]*node
 	var next [maxHeight + 1]*node
@@ -283,6 +284,7 @@ func (s *Skiplist) Put(key []byte, v y.ValueStruct) {
 		// Use higher level to speed up for current level.
 		prev[i], next[i] = s.findSpliceForLevel(key, prev[i+1], i)
 		if prev[i] == next[i] {
+			verifSklPoint(1)
 			prev[i].setValue(s.arena, v)
 			return
 		}
@@ -290,11 +292,13 @@ func (s *Skiplist) Put(key []byte, v y.ValueStruct) {
 
 	// We do need to create a new node.
 	height := s.randomHeight()
+	verifSklPoint(700 + height)
 	x := newNode(s.arena, key, v, height)
 
 	// Try to increase s.height via CAS.
 	listHeight = s.getHeight()
 	for height > int(listHeight) {
+		verifSklPoint(2)
 		if s.height.CompareAndSwap(listHeight, int32(height)) {
 			// Successfully increased skiplist.height.
 			break
@@ -315,18 +319,21 @@ func (s *Skiplist) Put(key []byte, v y.ValueStruct) {
 				// the base level. But we know we are not on the base level.
 				y.AssertTrue(prev[i] != next[i])
 			}
+			verifSklPoint(300 + i)
 			nextOffset := s.arena.getNodeOffset(next[i])
 			x.tower[i].Store(nextOffset)
 			if prev[i].casNextOffset(i, nextOffset, s.arena.getNodeOffset(x)) {
 				// Managed to insert x between prev[i] and next[i]. Go to the next level.
 				break
 			}
+			verifSklPoint(500 + i)
 			// CAS failed. We need to recompute prev and next.
 			// It is unlikely to be helpful to try to use a different level as we redo the search,
 			// because it is unlikely that lots of nodes are inserted between prev[i] and next[i].
 			prev[i], next[i] = s.findSpliceForLevel(key, prev[i], i)
 			if prev[i] == next[i] {
 				y.AssertTruef(i == 0, "Equality can happen only on base level: %d", i)
+				verifSklPoint(6)
 				prev[i].setValue(s.arena, v)
 				return
 			}
